@@ -43,7 +43,8 @@ ObsLoggerOK(s, l, o) ==
     /\ Has(o, "parent") => o.parent = s.parent[l]
     /\ Has(o, "root") => o.root = RootOf(s, l)
     /\ Has(o, "shape") => o.shape = Fmt(s.cfg[l])
-    /\ Has(o, "attrs") => o.attrs = Leaves(s.cfg[l].attrs, <<>>)
+    \* what a probe record shows: own attributes, preceded by the ancestors' while the inherit flag is on
+    /\ Has(o, "attrs") => o.attrs = Leaves(Chain(s, l), <<>>)
     /\ Has(o, "each") => o.each = EachOf(s, l)
     /\ Has(o, "sub") => \A x \in 1..Len(o.sub) :
             LET c == SubCands(s, l, o.sub[x].name)
@@ -69,6 +70,11 @@ ObsMatch(s, e, s2) ==
     \* C07: the attributes printed for the record, flattened in printed order
     /\ (e.op = "LogM" /\ Has(e, "leaves")) => e.leaves = ExpectM(s2, e)
     /\ Has(e, "attrsR") => e.attrsR = s2.attrsR
+    \* the global flags as GetFlags / IsAnyBitsSet / IsAllBitsSet show them
+    /\ Has(e, "flags") => ToSet(e.flags) = s2.flags
+    /\ Has(e, "bits") => \A x \in 1..Len(e.bits) :
+            /\ e.bits[x].any = (s2.flags \cap FlagSets[e.bits[x].fs] # {})
+            /\ e.bits[x].all = (FlagSets[e.bits[x].fs] \subseteq s2.flags)
     /\ Has(e, "outcome") => e.outcome = "ret"
     /\ Has(e, "obs") => /\ Len(e.obs) = s2.n
                         /\ \A l \in 1..s2.n : ObsLoggerOK(s2, l, e.obs[l])
@@ -78,7 +84,7 @@ Expect(s, e) ==
     IF ~Guard(s, e) THEN "call not allowed by the model in this state"
     ELSE LET s2 == CHOOSE x \in Step(s, e) : TRUE
          IN ToJson([ret |-> Ret(s, e, s2), deliver |-> (IF e.op = "LogF" THEN Deliver(s2, e.l, e.a, FailSets[e.b]) ELSE IF e.op = "LogA" THEN ExpectA(s2, e) ELSE <<>>),
-                    leaves |-> (IF e.op = "LogM" THEN ExpectM(s2, e) ELSE <<>>), dbg |-> s2.dbg, deflvl |-> s2.deflvl, n |-> s2.n,
+                    leaves |-> (IF e.op = "LogM" THEN ExpectM(s2, e) ELSE <<>>), flags |-> SetToSeq(s2.flags), dbg |-> s2.dbg, deflvl |-> s2.deflvl, n |-> s2.n,
                     cfg |-> [l \in 1..s2.n |-> [json |-> s2.cfg[l].json, color |-> s2.cfg[l].color,
                                                level |-> s2.cfg[l].level, skip |-> s2.cfg[l].skip,
                                                name |-> s2.name[l], parent |-> s2.parent[l],
